@@ -283,6 +283,8 @@ func shrink(c *Case) *Case {
 func hunt(o Opts) {
 	res := map[string]interface{}{"found": false}
 	var handed2 []*Case2
+	var handed3 []*Case3
+	var clamp3 *Case3
 	report := func(c *Case, msg string) {
 		s := shrink(c)
 		execute(s)
@@ -298,6 +300,8 @@ func hunt(o Opts) {
 			Cases  []*Case  `json:"cases"`
 			Cases2 []*Case2 `json:"cases2"`
 			Lag    *Case    `json:"lag_witness"`
+			Cases3 []*Case3 `json:"cases3"`
+			Clamp  *Case3   `json:"vclamp_witness"`
 		}
 		if b, err := os.ReadFile(o.Replay); err == nil {
 			json.Unmarshal(b, &in)
@@ -314,9 +318,13 @@ func hunt(o Opts) {
 			}
 		}
 		handed2 = in.Cases2
+		handed3, clamp3 = in.Cases3, in.Clamp
 	}
 	if res["found"] == false {
 		huntHMM(o, handed2, res)
+	}
+	if res["found"] == false {
+		hunt3(o, handed3, clamp3, res)
 	}
 	// 2. tiny data sets over a grid, per family
 	if res["found"] == false {
